@@ -1,6 +1,8 @@
 package main
 
 import (
+	"strconv"
+	"go/constant"
 	"go/token"
 	"go/types"
 	"sort"
@@ -375,6 +377,8 @@ func checkC18(c *Check) {
 		}
 		c.Ob("R2", "no sort is applied to a slice decoded directly from a YAML sequence ("+itoa(nsort)+" sort calls examined)", sdlPos(l), nsort >= 1, "")
 	}
+
+	c.unitTableAgrees("R2")
 
 	// ---- R3 sibling agreement
 	{
@@ -989,5 +993,85 @@ func (c *Check) manifestValidationShape(rule string) {
 		if n == 0 {
 			c.Info(rule, "global-service test not found in validateManifestGroups, not decided", vg.Pos(), "")
 		}
+	}
+}
+
+// unitTableAgrees (R2): every row of the SDL's unit-suffix table pairs a suffix with the multiplier that suffix names:
+// a letter K/M/G/T/P/E gives the exponent 1..6, a trailing 'i' the base 1024, its absence the base 1000. A row with the
+// wrong constant makes every size written with that suffix come out wrong in groups and manifest alike.
+func (c *Check) unitTableAgrees(rule string) {
+	l := c.L
+	sp := l.SSA[akash+"/sdl"]
+	if sp == nil {
+		return
+	}
+	ini := sp.Func("init")
+	if ini == nil {
+		return
+	}
+	// rows: stores of (symbol, unit) pairs into the elements of the table's backing array
+	type row struct {
+		sym string
+		val uint64
+		pos ssa.Instruction
+		has int
+	}
+	rows := map[string]*row{}
+	eachInstr(ini, func(i ssa.Instruction) {
+		st, ok := i.(*ssa.Store)
+		if !ok {
+			return
+		}
+		fa, ok := st.Addr.(*ssa.FieldAddr)
+		if !ok {
+			return
+		}
+		ia, ok := fa.X.(*ssa.IndexAddr)
+		if !ok {
+			return
+		}
+		f := fieldName(fa.X.Type(), fa.Field)
+		if f != "symbol" && f != "unit" {
+			return
+		}
+		key := Sym(ia.X) + "#" + Sym(ia.Index)
+		if rows[key] == nil {
+			rows[key] = &row{pos: st}
+		}
+		r := rows[key]
+		if f == "symbol" {
+			if s, isS := strConst(st.Val); isS {
+				r.sym = s
+				r.has |= 1
+			}
+		} else if k, isK := st.Val.(*ssa.Const); isK && k.Value != nil {
+			if u, exact := constant.Uint64Val(constant.ToInt(k.Value)); exact {
+				r.val = u
+				r.has |= 2
+			}
+		}
+	})
+	n := 0
+	for _, r := range rows {
+		if r.has != 3 || r.sym == "" {
+			continue
+		}
+		exp := strings.Index("KMGTPE", strings.ToUpper(r.sym[:1])) + 1
+		if exp == 0 {
+			continue
+		}
+		base := uint64(1000)
+		if strings.HasSuffix(r.sym, "i") {
+			base = 1024
+		}
+		want := uint64(1)
+		for k := 0; k < exp; k++ {
+			want *= base
+		}
+		n++
+		c.Ob(rule, "unit suffix "+r.sym+" multiplies by "+strconv.FormatUint(want, 10), r.pos.Pos(), r.val == want, "the table gives "+strconv.FormatUint(r.val, 10)+" for suffix "+r.sym)
+	}
+	if n < 10 {
+		c.Info(rule, "unit suffix table: fewer rows recognised than on the pinned tree, agreement not decided for the rest", token.NoPos, itoa(n))
 	}
 }
